@@ -199,6 +199,135 @@ theorem C04_pidExists_overflow_counterexample :
     (step bad (St.init ⟨[⟨1, 10, false, false, .ok⟩], []⟩) (.pidExists 2147483648)).2 = .exc "OverflowError" := by
   decide
 
+/-! ## the platform functions branch by branch (`_psposix.pid_exists`, `_pslinux.pid_exists`) -/
+
+/-- **C04_posix_pidExists_branches.** Every branch of `_psposix.pid_exists(n)`: PID 0 is answered
+    True without a probe; an int above `pid_t` makes `os.kill` raise OverflowError (caught one
+    level up, fact `rangeGuard`); otherwise the answer is a bool, True exactly when `kill(n, 0)`
+    does not say ESRCH — that is when `n` is the id of a process OR of a thread, whoever owns it
+    (EPERM counts as "exists"). -/
+theorem C04_posix_pidExists_branches (k : Kernel) (n : Nat) :
+    (n = 0 → posixPidExists k n = .bool true)
+    ∧ (n > pidTMax → posixPidExists k n = .exc "OverflowError")
+    ∧ (0 < n → n ≤ pidTMax →
+        posixPidExists k n = .bool ((k.findProc n).isSome || (k.findThr n).isSome)) := by
+  refine ⟨?_, ?_, ?_⟩
+  · intro h; simp [posixPidExists, h]
+  · intro h
+    have h0 : (n == 0) = false := by
+      have : n ≠ 0 := by unfold pidTMax at h; omega
+      simpa using this
+    simp [posixPidExists, h0, Kernel.kill, h]
+  · intro h0 hb
+    have hz : (n == 0) = false := by
+      have : n ≠ 0 := by omega
+      simpa using this
+    have hnb : ¬ n > pidTMax := by omega
+    simp only [posixPidExists, hz, Bool.false_eq_true, if_false, Kernel.kill, hnb]
+    cases hfp : k.findProc n with
+    | some p => cases hf : p.foreign <;> simp [hf]
+    | none =>
+      cases hft : k.findThr n with
+      | none => simp
+      | some t =>
+        cases hq : k.findProc t.tgid with
+        | none => simp [hq]
+        | some q => cases hf : q.foreign <;> simp [hq, hf]
+
+/-- the model of `psutil.pid_exists` uses exactly the two platform functions (no table change in
+    between) -/
+theorem C04_platform_eq (k : Kernel) (n : Nat) (hn : 0 < n) :
+    platformPidExists k n = (linuxPidExists k n []).2 := by
+  have hz : (n == 0) = false := by
+    have : n ≠ 0 := by omega
+    simpa using this
+  simp only [platformPidExists, linuxPidExists, posixPidExists, hz, Bool.false_eq_true, if_false,
+    Kernel.applyAll, List.foldl_nil]
+  cases k.kill n <;> simp only <;> cases k.readStatus n <;> rfl
+
+/-- **C04_linux_pidExists_linearizable.** `_pslinux.pid_exists(n)` called on its own, every branch
+    (ESRCH; `Tgid:` equal / different — a thread id; `Tgid:` line missing → ValueError → listing;
+    status unreadable or gone → OSError → listing; PID 0), with ANY table changes between the
+    `kill` probe and the status read: the answer is a bool; True only if `n` is a listed PID when
+    the status file is read; False only if `n` was not a listed PID at the probe or is not one at
+    the read. So the answer is right for the table at some moment during the call. -/
+theorem C04_linux_pidExists_linearizable (k : Kernel) (hwf : k.WF) (n : Nat) (hb : n ≤ pidTMax)
+    (mid : List KEv) :
+    ∃ b, (linuxPidExists k n mid).2 = .bool b
+      ∧ (b = true → n ∈ (k.applyAll mid).listdir)
+      ∧ (b = false → n ∉ k.listdir ∨ n ∉ (k.applyAll mid).listdir) := by
+  have hpos : ∃ e, posixPidExists k n = .bool e ∧ (e = false → n ∉ k.listdir) := by
+    by_cases h0 : n = 0
+    · exact ⟨true, (C04_posix_pidExists_branches k n).1 h0, by simp⟩
+    · refine ⟨_, (C04_posix_pidExists_branches k n).2.2 (by omega) hb, ?_⟩
+      intro he hl
+      have := findProc_isSome_iff.mpr hl
+      simp [this] at he
+  obtain ⟨e, he, hfalse⟩ := hpos
+  have hwf' : (k.applyAll mid).WF := Kernel.applyAll_wf k mid hwf
+  unfold linuxPidExists
+  rw [he]
+  cases e with
+  | false => exact ⟨false, rfl, by simp, fun _ => Or.inl (hfalse rfl)⟩
+  | true =>
+    simp only [Kernel.readStatus]
+    cases hfp : (k.applyAll mid).findProc n with
+    | some p =>
+      have hp := findProc_some hfp
+      have hl : n ∈ (k.applyAll mid).listdir := mem_listdir.mpr ⟨p, hp.1, hp.2⟩
+      have hc : (k.applyAll mid).listdir.contains n = true := by simpa using hl
+      cases hst : p.status <;> exact ⟨true, by simp [hst, hl], fun _ => hl, by simp⟩
+    | none =>
+      have hnl : n ∉ (k.applyAll mid).listdir := by
+        rw [mem_listdir]; rintro ⟨p, hp, e⟩; exact findProc_none hfp p hp e
+      have hc : (k.applyAll mid).listdir.contains n = false := by simpa using hnl
+      cases hft : (k.applyAll mid).findThr n with
+      | none => exact ⟨false, by simp [hnl], by simp, fun _ => Or.inr hnl⟩
+      | some t =>
+        have ht := findThr_some hft
+        have hne : t.tgid ≠ n := by rw [← ht.2]; exact hwf'.thrTgid t ht.1
+        have hbq : (t.tgid == n) = false := by simpa using hne
+        exact ⟨false, by simp [hbq], by simp, fun _ => Or.inr hnl⟩
+
+/-- **C04_linux_pidExists_iff.** Without a table change inside the call, `_pslinux.pid_exists(n)`
+    is True exactly for the listed PIDs — False for every thread id. -/
+theorem C04_linux_pidExists_iff (k : Kernel) (hwf : k.WF) (n : Nat) (hb : n ≤ pidTMax) :
+    ∃ b, (linuxPidExists k n []).2 = .bool b ∧ (b = true ↔ n ∈ k.listdir) := by
+  obtain ⟨b, h1, h2, h3⟩ := C04_linux_pidExists_linearizable k hwf n hb []
+  refine ⟨b, h1, h2, ?_⟩
+  intro hl
+  cases b with
+  | true => rfl
+  | false => rcases h3 rfl with h | h <;> exact absurd hl h
+
+/-- non-vacuity: a thread id passes the POSIX probe and is refused by the Tgid check; a process
+    that exits between the probe and the read (its id becoming a thread id of another process) is
+    answered False, one that appears in the window (thread id turned PID) True -/
+example :
+    let k : Kernel := ⟨[⟨1, 10, false, false, .ok⟩, ⟨2, 11, false, true, .ok⟩], [⟨7, 1, 13⟩, ⟨8, 2, 14⟩]⟩
+    ([posixPidExists k 7, posixPidExists k 8, posixPidExists k 9, posixPidExists k 0, posixPidExists k 2147483648,
+     (linuxPidExists k 7 []).2, (linuxPidExists k 2 []).2,
+     (linuxPidExists k 2 [.exit 2, .thread ⟨2, 1, 20⟩]).2,
+     (linuxPidExists k 7 [.exit 1, .spawn ⟨7, 30, false, false, .noTgid⟩]).2]
+    = [.bool true, .bool true, .bool false, .bool true, .exc "OverflowError",
+       .bool false, .bool true, .bool false, .bool true]) := by
+  decide
+
+/-- **C04_pidExists_bool.** A `bool` argument is an int (`True` = 1, `False` = 0): the statement
+    covers it — `pid_exists(True)` / `pid_exists(False)` is a bool, True exactly when PID 1 / PID 0
+    is listed. -/
+theorem C04_pidExists_bool (c : Cfg) (hg : c.Good) (s : St) (hwf : s.k.WF) (hne : s.k.procs ≠ []) (a : Bool) :
+    ∃ b, (pidExistsArg c s (.bool a)).2 = .bool b ∧ (b = true ↔ Spec.Exists s.k (if a then 1 else 0)) :=
+  C04_pidExists_iff c hg s hwf hne (if a then 1 else 0)
+
+/-- **C04_pidExists_float** (outside the statement, which speaks about ints; recorded so that the
+    behaviour is pinned): a negative float → False, `0.0` → like `0`, any other float → the
+    TypeError of `os.kill` escapes. -/
+theorem C04_pidExists_float (c : Cfg) (s : St) :
+    pidExistsArg c s .floatNeg = (s, .bool false)
+    ∧ pidExistsArg c s .floatZero = pidExists c s 0
+    ∧ (pidExistsArg c s .floatOther).2 = .exc "TypeError" := ⟨rfl, rfl, rfl⟩
+
 /-! ## `process_iter()` — safety, for EVERY history (overlapping generators included) -/
 
 /-- **C04_iter_ascending.** Along ANY history — other generators interleaved, the table changing
@@ -475,6 +604,103 @@ theorem C04_info_keys (c : Cfg) (s : St) (g : Nat) (mid : List KEv) (gen : Gen) 
       exact ⟨nodup_dedup l, fun x => mem_dedup x l⟩
     · intro he
       simp [namesOf, he]
+
+/-! ## `info` values: `ad_value` -/
+
+/-- **C04_asdict_ad_value.** Whatever each getter does short of NoSuchProcess / NotImplementedError:
+    the dict has exactly the requested names as keys, in order, each once per request, and the
+    value stored under a name is `ad_value` exactly when its getter raised AccessDenied or
+    ZombieProcess (EACCES on one file does not cost the other entries). -/
+theorem C04_asdict_ad_value (explicit : Bool) (outs : List (String × GetRes))
+    (h : ∀ x ∈ outs, x.2 ≠ .nsp ∧ x.2 ≠ .notImpl) (acc : List (String × Bool)) :
+    asDictVals explicit outs acc
+      = .dict (acc ++ outs.map fun x => (x.1, decide (x.2 = .accessDenied ∨ x.2 = .zombie))) := by
+  induction outs generalizing acc with
+  | nil => simp [asDictVals]
+  | cons x rest ih =>
+    obtain ⟨nm, r⟩ := x
+    have hx := h (nm, r) (by simp)
+    have hr := fun y hy => h y (List.mem_cons_of_mem _ hy)
+    cases r with
+    | val => simp [asDictVals, ih hr]
+    | accessDenied => simp [asDictVals, ih hr]
+    | zombie => simp [asDictVals, ih hr]
+    | nsp => exact absurd rfl hx.1
+    | notImpl => exact absurd rfl hx.2
+
+/-- a getter that is not implemented on this platform is left out when all names were asked for
+    (`attrs=[]`), and is an error when it was asked for by name; NoSuchProcess always propagates
+    (process_iter then skips the PID) -/
+example :
+    asDictVals false [("a", .val), ("b", .notImpl), ("c", .accessDenied)] [] = .dict [("a", false), ("c", true)]
+    ∧ asDictVals true [("a", .val), ("b", .notImpl), ("c", .accessDenied)] [] = .notImpl
+    ∧ asDictVals false [("a", .zombie), ("b", .nsp), ("c", .val)] [] = .nsp := by decide
+
+/-! ## two threads entering `process_iter()` while a PID is flagged -/
+
+/-- **C04_drain_race_counterexample.** With the `pop()` unguarded (the code before the repair), two
+    threads that both find `_pids_reused` non-empty race for its one element: A tests, B tests,
+    B pops, B tests again and leaves, A pops from the empty set — `KeyError` escapes from
+    `process_iter()`. Found on the real code by the bounded-pre-emption explorer (program
+    `flagged2`, one pre-emption). -/
+theorem C04_drain_race_counterexample :
+    (drainRun false [5] DTh.start DTh.start [false, true, true, true, false]).2.1.pc = .keyError := by
+  decide
+
+/-- **C04_drain_guarded_safe.** With the guarded `pop()`, for EVERY flagged set and EVERY schedule of
+    the two threads neither of them ever raises, and no flag is lost: every PID that was in the set
+    is still in it or has been dropped by one of the two threads. -/
+theorem C04_drain_guarded_safe (sched : List Bool) :
+    ∀ (set : List Nat) (a b : DTh), a.pc ≠ .keyError → b.pc ≠ .keyError →
+      (drainRun true set a b sched).2.1.pc ≠ .keyError ∧ (drainRun true set a b sched).2.2.pc ≠ .keyError
+      ∧ ∀ p, (p ∈ set ∨ p ∈ a.removed ∨ p ∈ b.removed) →
+          (p ∈ (drainRun true set a b sched).1 ∨ p ∈ (drainRun true set a b sched).2.1.removed
+            ∨ p ∈ (drainRun true set a b sched).2.2.removed) := by
+  have key : ∀ (set : List Nat) (t : DTh), t.pc ≠ .keyError →
+      (drainStep true set t).2.pc ≠ .keyError
+      ∧ (∀ p, p ∈ t.removed → p ∈ (drainStep true set t).2.removed)
+      ∧ ∀ p, p ∈ set → p ∈ (drainStep true set t).1 ∨ p ∈ (drainStep true set t).2.removed := by
+    intro set t ht
+    unfold drainStep
+    cases hpc : t.pc with
+    | test => by_cases he : set.isEmpty = true <;> simp [he] <;> exact fun p hp => Or.inl hp
+    | pop =>
+      cases set with
+      | nil => simp
+      | cons q qs =>
+        refine ⟨by simp, fun p hp => by simp [hp], fun p hp => ?_⟩
+        rcases List.mem_cons.mp hp with e | hm
+        · right; simp [e]
+        · left; exact hm
+    | done => simp [hpc]; exact fun p hp => Or.inl hp
+    | keyError => exact absurd hpc ht
+  induction sched with
+  | nil => intro set a b ha hb; exact ⟨ha, hb, fun p hp => hp⟩
+  | cons x rest ih =>
+    intro set a b ha hb
+    cases x with
+    | false =>
+      obtain ⟨k1, k2, k3⟩ := key set a ha
+      have := ih (drainStep true set a).1 (drainStep true set a).2 b k1 hb
+      simp only [drainRun]
+      refine ⟨this.1, this.2.1, fun p hp => this.2.2 p ?_⟩
+      rcases hp with h | h | h
+      · rcases k3 p h with h' | h'
+        · exact Or.inl h'
+        · exact Or.inr (Or.inl h')
+      · exact Or.inr (Or.inl (k2 p h))
+      · exact Or.inr (Or.inr h)
+    | true =>
+      obtain ⟨k1, k2, k3⟩ := key set b hb
+      have := ih (drainStep true set b).1 a (drainStep true set b).2 ha k1
+      simp only [drainRun]
+      refine ⟨this.1, this.2.1, fun p hp => this.2.2 p ?_⟩
+      rcases hp with h | h | h
+      · rcases k3 p h with h' | h'
+        · exact Or.inl h'
+        · exact Or.inr (Or.inr h')
+      · exact Or.inr (Or.inl h)
+      · exact Or.inr (Or.inr (k2 p h))
 
 /-! ## proved counterexamples (leads re-found through the model; each witness is replayed on the
     real code by the harness corpus) -/
